@@ -240,6 +240,15 @@ impl RtpsReaderProxy {
         }
     }
 
+    pub fn set_locators(
+        &mut self,
+        unicast_locator_list: &[Locator],
+        multicast_locator_list: &[Locator],
+    ) {
+        self.unicast_locator_list = unicast_locator_list.to_vec();
+        self.multicast_locator_list = multicast_locator_list.to_vec();
+    }
+
     pub fn first_relevant_sample_seq_num(&self) -> SequenceNumber {
         self.first_relevant_sample_seq_num
     }
